@@ -720,7 +720,7 @@ MUTANTS = [
     Mutant('parts continue where the previous ended', P, "    self._state.time_position = 0\n    self._state.midi_channel", "    self._state.midi_channel", rule='STATE/part-reset'),
     Mutant('tempo change keeps the old seconds per quarter', P, "          self.state.seconds_per_quarter = 60 / self.state.qpm\n", "", rule='CONV/tempo'),
     Mutant('two rows of the fifths table swapped', R, "music_proto_keys = [11, 6, 1, 8, 3, 10, 5, 0, 7, 2, 9, 4, 11, 6, 1]", "music_proto_keys = [11, 6, 1, 8, 3, 10, 5, 0, 2, 7, 9, 4, 11, 6, 1]", rule='KEY/fifths-table'),
-    Mutant('minor keys report the major tonic', R, "      key_signature.key = (key_signature.key + 9) % 12\n", "", rule='KEY/minor-tonic'),
+    Mutant('minor keys report the major tonic', R, "      key_signature.key = (key_signature.key + 9) % 12\n", "", rule='KEY/'),
     Mutant('minor tonic a major third below', R, "      key_signature.key = (key_signature.key + 9) % 12\n", "      key_signature.key = (key_signature.key + 8) % 12\n", rule='KEY/minor-tonic'),
     Mutant('kind abbreviation the symbol parser rejects', P, "      'suspended-second': 'sus2',", "      'suspended-second': 'suspended2',", rule='KIND/accepted'),
     Mutant('bass before the degrees', P, "      figure = self.root + self.kind + degrees_string\n      if self.bass:\n        figure += '/' + self.bass", "      figure = self.root + self.kind\n      if self.bass:\n        figure += '/' + self.bass\n      figure += degrees_string", rule='FIG/'),
